@@ -10,29 +10,33 @@ LEVEL = "model_checking"
 
 def plan(tier):
     if tier == "quick":
-        combos = [("spot1+fut", 0), ("spot4+fut", 1), ("fut+fut", 4), ("etf+es", 5), ("spot+spot", 1), ("halfmult", 3)]
-        return [(u, ledger.FEES[f], 4) for u, f in combos]
+        combos = [("spot1+fut", 0, 4), ("spot4+fut", 1, 4), ("fut+fut", 4, 3), ("etf+es", 5, 3), ("spot+spot", 1, 4), ("halfmult", 3, 4),
+                  ("spot1+fut", 4, 3), ("fut+fut", 0, 3), ("etf+es", 1, 3), ("halfmult", 2, 4), ("spot4+fut", 5, 3), ("spot+spot", 3, 4)]
+        return [(u, ledger.FEES[f], d, 0.0) for u, f, d in combos] + [("spot1+fut", ledger.FEES[1], 3, 0.05), ("fut+fut", ledger.FEES[0], 3, 0.05)]
     out = []
     for u in ledger.UNIVERSES:
         for f in ledger.FEES:
-            out.append((u, f, 5))
+            out.append((u, f, 5, 0.0))
     # one combination a level deeper
-    out[0] = (out[0][0], out[0][1], 6)
-    out[7] = (out[7][0], out[7][1], 6)
+    out[0] = (out[0][0], out[0][1], 6, 0.0)
+    out[7] = (out[7][0], out[7][1], 6, 0.0)
+    # interest accruing inside rebalances (rate 5%, markup 1%)
+    for u in ("spot1+fut", "fut+fut", "spot+spot", "etf+es"):
+        out.append((u, ledger.FEES[1], 4, 0.05))
     return out
 
 
 def _unit(u):
-    universe, fee, depth, scale, deposit = u
-    r = ledger.bfs(universe, fee, depth, scale, deposit, ledger.alphabet())
-    r["unit"] = (universe, fee, depth)
+    universe, fee, depth, rate, scale, deposit = u
+    r = ledger.bfs(universe, fee, depth, scale, deposit, ledger.alphabet(), rate=rate)
+    r["unit"] = (universe, fee, depth, rate)
     return r
 
 
 def run(tier, pid):
     rep = Report(pid, tier, LEVEL)
     scale, deposit = ledger.palette()
-    units = [(u, f, d, scale, deposit) for (u, f, d) in plan(tier)]
+    units = [(u, f, d, rt, scale, deposit) for (u, f, d, rt) in plan(tier)]
     ops = ledger.alphabet()
     samples = []
     per_unit = []
@@ -41,13 +45,13 @@ def run(tier, pid):
         rep.add("transitions", r["transitions"])
         rep.add("traces_validated_against_impl", r["transitions"])
         rep.add("distinct_observed_nlv", r["distinct_nlv"])
-        per_unit.append({"universe": r["unit"][0], "fee": r["unit"][1], "depth": r["unit"][2],
+        per_unit.append({"universe": r["unit"][0], "fee": r["unit"][1], "depth": r["unit"][2], "rate": r["unit"][3],
                          "states": r["states"], "transitions": r["transitions"],
                          "frontier_per_depth": r["per_depth"], "capped": r["capped"]})
         for vpid, hist, msg in r["violations"]:
             if vpid != pid:
                 continue
-            case = {"universe": r["unit"][0], "fee": list(r["unit"][1]), "scale": scale,
+            case = {"universe": r["unit"][0], "fee": list(r["unit"][1]), "scale": scale, "rate": r["unit"][3],
                     "deposit": deposit, "history": [list(o) for o in hist]}
             rep.violation(case, "%s after history %s: %s" % (r["unit"][0], list(hist), msg),
                           group=(r["unit"][0], msg.split(" ")[0], len(hist)))
@@ -64,7 +68,7 @@ def run(tier, pid):
     ])
     rep.assumptions = [
         "quotes 0 < bid <= ask from a 4-entry palette per contract; trades of +-1/+-2 lots and 3 rebalance targets",
-        "interest accrued during rebalances is taken from Rebalancing.profit_on_idle_cash (its amount is C06's subject); rate book is 0 here",
+        "interest accrued during rebalances is taken from Rebalancing.profit_on_idle_cash (its amount is C06's subject); rate book is 0 except in the units marked rate=0.05",
         "state key = every field Broker methods read (cash, positions, margins, reference prices, books, last accrual); quote history and track record dropped",
         "numeric comparison: exact Fraction reference vs float implementation within 1e-9 relative",
     ]
@@ -72,7 +76,8 @@ def run(tier, pid):
 
 
 def replay(case, pid=None):
-    out = ledger.replay_history(case["universe"], tuple(case["fee"]), case["scale"], case["deposit"], case["history"])
+    out = ledger.replay_history(case["universe"], tuple(case["fee"]), case["scale"], case["deposit"], case["history"],
+                                rate=case.get("rate", 0.0))
     return ["%s step %d: %s" % (p, i, m) for p, i, m in out if pid is None or p == pid]
 
 
